@@ -118,6 +118,15 @@ PROPS = {
         rule="every failure offset of every generated document/value (fault_enumeration style); non-trivial = a fault position strictly inside the data",
         trusted_base=COMMON_TB,
     ),
+    "C06": dict(
+        claim="Lean definition of 'same data' on value trees (CE/Tree.lean: parse events into a tree, records -> maps via the record-type table, references -> targets, markers and comments dropped, map entries order-insensitive) evaluated by the driver (TREE.EQ) on the implementation's own output: decode(doc) vs decode(marshal(unmarshal(doc, nil))), for CBE and CTE encodings of generated rules-valid streams. "
+              "Sub-populations isolate each feature with a recorded finding (edge, node, remote reference, local reference, non-URL resource id, time, bit array, UID array, NaN in float arrays) so that the healthy core (scalars, strings, URLs, numeric typed arrays, media, lists, maps, records) is decided without exclusions",
+        note="partial: no theorem yet about the builder model (M-MARSHAL.buildAny is not modelled); this check is the oracle half of the design (Lean spec of the data relation + implementation runs). Go map iteration order makes map order irrelevant by construction. float16 arrays are compared as float32 arrays (Go has no 16-bit float)",
+        level="proof", n_quick=3900, n_thorough=200000, shards=16,
+        lean_modules=["CE.Props.C06"],
+        rule="13 sub-populations round-robin (4 core, 9 single-feature); each case encoded in CBE and CTE; distinct by event text; non-trivial = more than the header events",
+        trusted_base=COMMON_TB,
+    ),
 }
 
 NOT_APPLICABLE = {}
